@@ -1,4 +1,6 @@
 import Grexv.Model.Api
+import Grexv.Gen.Setters
+import Grexv.Model.ApiCli
 import Grexv.Model.Contracts
 
 /-
